@@ -48,18 +48,6 @@ def parse_assumption_blocks(out):
     return blocks
 
 
-def axiom_names(block):
-    names = []
-    for line in block:
-        m = re.match(r'^([A-Za-z0-9_\.\']+)\s*:', line.strip())
-        if m and line.startswith(line.strip()[:1]) and not line.startswith('   '):
-            names.append(m.group(1))
-        elif m and re.match(r'^\S', line):
-            names.append(m.group(1))
-    # Coq prints each axiom as `name : type` starting in column 0, continuation lines indented
-    return names
-
-
 def check_proofs(prop, tier):
     """Re-check every proof obligation of the property from source."""
     info = dict(obligations=0, discharged=0, theorems=[], failed=[], axioms=[],
@@ -73,7 +61,7 @@ def check_proofs(prop, tier):
     names = theorem_names(pfile)
     info['theorems'] = names
     info['obligations'] = len(names)
-    info['hygiene'] = C.hygiene(C.all_coq_sources())
+    info['hygiene'] = C.hygiene(C.dep_sources('Properties/%s.v' % prop))
     info['checker_cmd'] = ('make -C coq Properties/%s.vo (coq_makefile, full .vo build) ; '
                            'coqc -Q coq Spowtd coq/Properties/%s.v (Print Assumptions)' % (prop, prop))
     rc, out, _ = C.make(['Properties/%s.vo' % prop])
